@@ -169,6 +169,23 @@ def numeric_error_identity(ctx, quick):
                         eopts, Se.size, len(wante), sym), dict(kind='eigh-forwarding', sym=sym, axes=axes, opts=eopts, seed_index=k))
             except yastn.YastnError:
                 pass
+            # the same operator presented META-fused, the new leg of U at any position: the error identity |h - U S U^+|^2 = discarded weight
+            if hlp >= 2:
+                try:
+                    h4 = yastn.tensordot(a, a.conj(), axes=(axes[1], axes[1]))
+                    hm = h4.fuse_legs(axes=(tuple(range(hlp)), tuple(range(hlp, 2 * hlp))), mode='meta')
+                    Uax = rng.choice([-1, 0, 1])
+                    Sm, Um = yastn.eigh_with_truncation(hm, axes=(0, 1), which='LR', Uaxis=Uax, **eopts)
+                    Um = Um.moveaxis(source=Uax % 2, destination=1)
+                    recm = yastn.tensordot(yastn.tensordot(Um, Sm, axes=(1, 0)), Um.conj(), axes=(1, 1))
+                    errm = float((hm - recm).norm()) ** 2
+                    discm = float(Sf.norm()) ** 2 - float(Sm.norm()) ** 2
+                    ctx.count('eigh_with_truncation:meta-fused:Uaxis=%d' % Uax)
+                    if not abs(errm - discm) <= 1e-8 * max(1.0, float(hm.norm()) ** 2) or Sm.size != Se.size:
+                        ctx.violation('eigh_with_truncation(meta-fused operator, Uaxis=%d, %r): |h - U S U^+|^2 = %.10g, discarded weight = %.10g, kept %d (hard-fused presentation keeps %d) (sym %s)' % (
+                            Uax, eopts, errm, discm, Sm.size, Se.size, sym), dict(kind='eigh-meta-uaxis', sym=sym, axes=axes, opts=eopts, Uaxis=Uax, seed_index=k))
+                except yastn.YastnError:
+                    ctx.count('eigh_with_truncation:meta-fused:rejected')
         # eigh_with_truncation on a Hermitian (indefinite) matrix
         if nl >= 1:
             h = yastn.tensordot(a, a.conj(), axes=(axes[1], axes[1]))
